@@ -257,10 +257,11 @@ func (x *XRefParser) parseTraditionalXRef() (*XRefTable, error) {
 			continue
 		}
 
-		// Check if we've reached the trailer
-		if line == "trailer" {
+		// Check if we've reached the trailer (the dictionary may start on the
+		// keyword's line: "trailer << ... >>")
+		if line == "trailer" || strings.HasPrefix(line, "trailer<") || strings.HasPrefix(line, "trailer ") {
 			// Parse trailer dictionary
-			trailer, err := x.parseTrailer(scanner)
+			trailer, err := x.parseTrailerFrom(scanner, strings.TrimPrefix(line, "trailer"))
 			if err != nil {
 				return nil, fmt.Errorf("failed to parse trailer: %w", err)
 			}
@@ -569,19 +570,26 @@ func (x *XRefParser) parseEntry(line string) (*XRefEntry, error) {
 
 // parseTrailer parses the trailer dictionary after the "trailer" keyword.
 func (x *XRefParser) parseTrailer(scanner *bufio.Scanner) (Dict, error) {
-	// Collect all remaining lines until we find a dictionary
+	return x.parseTrailerFrom(scanner, "")
+}
+
+// parseTrailerFrom parses the trailer dictionary; first is the rest of the
+// "trailer" keyword's line, where the dictionary may already begin.
+func (x *XRefParser) parseTrailerFrom(scanner *bufio.Scanner, first string) (Dict, error) {
+	// Collect the lines up to the startxref keyword that follows the trailer;
+	// the object parser below reads exactly one dictionary from them, so nested
+	// dictionaries and values spread over several lines are fine.
 	var dictText strings.Builder
+	dictText.WriteString(first)
+	dictText.WriteString("\n")
 
 	for scanner.Scan() {
 		line := scanner.Text()
-		dictText.WriteString(line)
-		dictText.WriteString("\n")
-
-		// Check if we've seen the complete dictionary
-		// (Simple heuristic: look for ">>" which ends the dict)
-		if strings.Contains(line, ">>") {
+		if strings.HasPrefix(strings.TrimSpace(line), "startxref") {
 			break
 		}
+		dictText.WriteString(line)
+		dictText.WriteString("\n")
 	}
 
 	// Parse the dictionary using our existing parser
